@@ -26,6 +26,11 @@ def g(unit):
     return ("guard", unit, {})
 
 
+def s(unit):
+    """bounded differential exploration (thorough tier only, never counted as proved): lib/search_backend.py"""
+    return ("search", unit, {})
+
+
 SIMD_ASSUMPTION = ("SIMD kernels (sse2/sse41/avx2/avx512/neon: assembly, C and Rust intrinsics) are ASSUMED to equal "
                    "the specification's compression function with the frames of their signatures (this is property "
                    "C05, not decidable by this family here); proved unconditionally for Platform::Portable")
@@ -44,7 +49,7 @@ _here = _os.path.dirname(_os.path.abspath(__file__))
 for _f in sorted(_glob.glob(_os.path.join(_here, "propdefs", "*.py"))):
     _s = _ilu.spec_from_file_location("propdefs_" + _os.path.basename(_f)[:-3], _f)
     _m = _ilu.module_from_spec(_s)
-    for _n in ("v", "c", "k", "e", "g", "SIMD_ASSUMPTION", "TYPE_ASSUMPTION", "EXTRACTION"):
+    for _n in ("v", "c", "k", "e", "g", "s", "SIMD_ASSUMPTION", "TYPE_ASSUMPTION", "EXTRACTION"):
         setattr(_m, _n, globals()[_n])
     _s.loader.exec_module(_m)
     PROPS.update(getattr(_m, "PROPS", {}))
